@@ -70,8 +70,9 @@ func init() {
 				}
 			}
 			return map[string][]string{"combo": want, "flip": {"to-system:plainctx", "to-system:sysctx", "to-ordinary:sysctx", "to-system-migrate:plainctx", "to-system-migrate:sysctx", "child-create-over-system-parent:plainctx"},
-				"system_context_via": {"GetSystemContext", "NewSystemMutateContext", "GetSystemContext twice", "NewSystemMutateContext over a system context", "ordinary after UpdateContext"},
+				"system_context_via": {"GetSystemContext", "NewSystemMutateContext", "GetSystemContext twice", "NewSystemMutateContext over a system context", "ordinary after UpdateContext", "the context the transaction function is handed"},
 				"cascade":            {"any-system=true:ordinary:DeleteById", "any-system=true:ordinary:DeleteWhere", "any-system=true:system:DeleteById", "any-system=false:ordinary:DeleteById", "any-system=false:ordinary:DeleteWhere"},
+				"transaction_via":    {"Update", "Batch", "Update opened with a system context", "Batch opened with a system context"},
 				"tolerant":           {"update:plainctx:sysent", "patch:plainctx:sysent", "delete:plainctx:sysent"}}
 		},
 	})
@@ -176,8 +177,10 @@ func runC16(c *core.Ctx, idx int) {
 				use = ctx.GetSystemContext().GetSystemContext()
 			case 3:
 				use = boltz.NewSystemMutateContext(ctx.GetSystemContext())
+			case 4:
+				use = ctx // the transaction was opened with a system context: what the function is handed must be one
 			}
-			c.Cover("system_context_via", []string{"GetSystemContext", "NewSystemMutateContext", "GetSystemContext twice", "NewSystemMutateContext over a system context"}[op.SysVia])
+			c.Cover("system_context_via", []string{"GetSystemContext", "NewSystemMutateContext", "GetSystemContext twice", "NewSystemMutateContext over a system context", "the context the transaction function is handed"}[op.SysVia])
 		} else if op.SysVia == 1 {
 			// an ordinary context whose context.Context was replaced stays ordinary
 			use = ctx.UpdateContext(func(cc context.Context) context.Context { return context.WithValue(cc, c16Key{}, "x") })
@@ -330,10 +333,24 @@ func runC16(c *core.Ctx, idx int) {
 			}
 			if allSys {
 				ctx = boltz.NewSystemMutateContext(ctx)
+				// half of these transactions use the context exactly as the transaction function receives it
+				if r.Bool() {
+					for i := range ops {
+						ops[i].SysVia = 4
+					}
+				}
 			}
 		}
 		expectFail := false
-		err := db.Update(ctx, func(ctx boltz.MutateContext) error {
+		// every third transaction goes through Db.Batch instead of Db.Update
+		openTx := db.Update
+		if t%3 == 2 {
+			openTx = db.Batch
+			c.Cover("transaction_via", map[bool]string{true: "Batch opened with a system context", false: "Batch"}[ctx.IsSystemContext()])
+		} else {
+			c.Cover("transaction_via", map[bool]string{true: "Update opened with a system context", false: "Update"}[ctx.IsSystemContext()])
+		}
+		err := openTx(ctx, func(ctx boltz.MutateContext) error {
 			for i, op := range ops {
 				err := apply(ctx, op)
 				c.Eval()
